@@ -276,3 +276,44 @@ def run_real(module: Any, fname: str, args: list[Any], cpu_budget_s: float = 10.
         signal.setitimer(signal.ITIMER_VIRTUAL, 0)
         signal.signal(signal.SIGVTALRM, old)
     return "ok [" + ",".join(show_val(t, v) for t, v in zip(ret_tys, res)) + "] effects [" + " ".join(effects) + "]"
+
+
+def run_real_session(module: Any, calls: list[tuple[Any, list[Any]]], cpu_budget_s: float = 10.0) -> list[str]:
+    """Like `run_real`, but ALL calls run on ONE Interpreter instance, in order (state that survives
+    between calls -- caches, leftover scopes -- becomes observable).  `calls` = [(symbol, args)], symbol
+    a str or a SymbolRefAttr naming a func.func directly under `module`.  One result line per call
+    (`skipped` for every call after one that raised)."""
+    from xdsl.dialects import func
+
+    effects: list[str] = []
+    exts = []
+    for o in module.body.ops:
+        if isinstance(o, func.FuncOp) and (not o.body.blocks or not o.body.blocks.first.ops):
+            exts.append((o.sym_name.data, [ty_str(t) for t in o.function_type.inputs.data]))
+    it = make_interpreter(module, effects, exts)
+    import signal
+
+    def _guard(signum, frame):
+        raise TimeoutError("real interpreter exceeded its CPU budget")
+
+    out: list[str] = []
+    for sym, args in calls:
+        if out and out[-1].split(" ")[0] in ("raise", "skipped"):
+            out.append("skipped")   # an exception may leave the interpreter mid-function: nothing is demanded of later calls
+            continue
+        del effects[:]
+        ret_tys: list[str] = []
+        for o in module.body.ops:
+            if isinstance(o, func.FuncOp) and o.sym_name.data == (sym if isinstance(sym, str) else sym.string_value()):
+                ret_tys = [ty_str(t) for t in o.function_type.outputs.data]
+        old = signal.signal(signal.SIGVTALRM, _guard)
+        signal.setitimer(signal.ITIMER_VIRTUAL, cpu_budget_s)
+        try:
+            res = it.call_op(sym, tuple(args))
+            out.append("ok [" + ",".join(show_val(t, v) for t, v in zip(ret_tys, res)) + "] effects [" + " ".join(effects) + "]")
+        except Exception as e:  # noqa: BLE001
+            out.append("raise " + core.exc_name(e))
+        finally:
+            signal.setitimer(signal.ITIMER_VIRTUAL, 0)
+            signal.signal(signal.SIGVTALRM, old)
+    return out
